@@ -107,4 +107,14 @@ Print Assumptions C04_documented_openers_recognised.
 Theorem C04_documented_selects_recognised : forall a, In a selects -> select_ok a = true.
 Proof. exact documented_selects_recognised. Qed.
 Print Assumptions C04_documented_selects_recognised.
+(* ... and with EVERY list name (non-empty, free of white space): a select command that no other command of the table can be confused
+   with (a computable condition; 10 of the 15 commands of the current table meet it) followed by a list name is read as that command
+   and that list *)
+Theorem C04_unambiguous_select_recognised : forall a l, In a unambiguous_selects -> l <> [] -> forallb nonspace l = true ->
+  classify controls selects (a ++ [32%N] ++ l) = TSelect a l false.
+Proof. exact unambiguous_select_recognised. Qed.
+Print Assumptions C04_unambiguous_select_recognised.
+Theorem C04_unambiguous_selects_exist : length unambiguous_selects = 10%nat /\ In [115;101;108;101;99;116;95;111;110;101]%N unambiguous_selects.
+Proof. split; [vm_compute; reflexivity|vm_compute; tauto]. Qed.
+Print Assumptions C04_unambiguous_selects_exist.
 
